@@ -32,6 +32,22 @@ theorem serves_after (a : Agent) (sched : List (Nat × Option Fault)) :
   rw [non_interference a' _ j _ hj]
   simp [proj, wrun, wstep]
 
+/-- no fault and no schedule makes a worker disappear: the agent keeps as many workers as it started -/
+theorem workers_never_vanish (a : Agent) (sched : List (Nat × Option Fault)) : (arun a sched).length = a.length :=
+  arun_length a sched
+
+/-- Whatever goes wrong on the *backend* side (unreachable, malformed head, reset mid-body — any combination, at any
+    step), the request still ends with a response uploaded and acknowledged, 200 or 502: only a failure of the proxy
+    legs themselves (fetch, upload) can leave a request without a response. -/
+theorem served_unless_proxy_fails (fs : List (Option Fault)) (h : 5 ≤ fs.length)
+    (h1 : some Fault.fetchFail ∉ fs) (h2 : some Fault.uploadFail ∉ fs) :
+    ∃ st, (st = 200 ∨ st = 502) ∧ wrun .fetching fs = .finished (.served st) :=
+  Workers.served_unless_proxy_fails fs h h1 h2
+
+/-- a finished worker stays finished with the same outcome: later faults cannot rewrite what a client received -/
+theorem outcome_is_final (o : Outcome) (fs : List (Option Fault)) : wrun (.finished o) fs = .finished o :=
+  wrun_finished o fs
+
 /-- When the backend cannot be reached the client receives a 502 response rather than no response. -/
 theorem unreachable_backend_502 :
     wrun .fetching [none, some .connectFail, none] = .finished (.served 502) := by decide
